@@ -3,6 +3,7 @@
 set -e
 cd "$(dirname "$(readlink -f "$0")")"
 export GOFLAGS=-mod=mod GOPROXY=off
+export VERIF_DIR="$(pwd)"
 unset GOTOOLCHAIN GOSUMDB 2>/dev/null || true
 mkdir -p build evidence lean/IpldModel/Generated
 (cd go && cp -f /repo/go.sum go.sum && go build -o ../build/translate ./cmd/translate)
